@@ -162,18 +162,44 @@ def make_gc_type_pred(managed):
     return pred
 
 
+_PTR_RE = re.compile(r"^(?:&(?:'\w+ )?(?:mut )?|\*const |\*mut )(.*)$")
+MANAGED = set()
+
+
+def _base_local(B, op, defs):
+    from rules.c04 import base_local
+    return base_local(B, op, defs)
+
+
 def is_ptrlike(ty):
-    return ty.startswith(("&", "*const ", "*mut ")) or ty == RT + "gc::Address" or ty.startswith(RT + "mirror::Ref<")
+    """could a value of this type point into the managed heap when derived from a GC pointer?"""
+    if ty == RT + "gc::Address" or ty.startswith(RT + "mirror::Ref<"):
+        return True
+    m = _PTR_RE.match(ty)
+    if not m:
+        return False
+    pointee = m.group(1)
+    base = pointee.split("<")[0]
+    if base in MANAGED:
+        return True
+    # a reference to a named native (non-managed) type, e.g. &DoraThread reached through a managed object's raw
+    # pointer field, does not point into the managed heap
+    if base.startswith(("dora_runtime::", "dora_compiler::", "std::", "alloc::", "core::sync", "parking_lot::")) \
+            and not pointee.startswith("["):
+        return False
+    return True
 
 
-def rule_r2(chk, F, c, cg):
-    r = chk.rule("C03.R2", "no direct pointer to a managed object (Ref<T>, &T/*T of a #[dora_object]/mirror type, or "
+def rule_r2(chk, F, c, cg, rid="C03.R2"):
+    r = chk.rule(rid, "no direct pointer to a managed object (Ref<T>, &T/*T of a #[dora_object]/mirror type, or "
                            "a pointer derived from one) is live across a call that may collect, in native code "
                            "reachable from a native entry point (handles are the only safe way to hold objects)")
     for s in SEEDS:
         r.anchor(s, s in cg.bodies)
     may = cg.callers_closure(SEEDS)
     managed = managed_types(c)
+    MANAGED.clear()
+    MANAGED.update(managed)
     r.floor("managed mirror types", len(managed), 8)
     gc_ty = make_gc_type_pred(managed)
     entries = native_entries(c)
@@ -182,6 +208,7 @@ def rule_r2(chk, F, c, cg):
     excl = (RT + "gc::", RT + "snapshot")
     nfun = ncalls = 0
     hazards = []
+    into = []
     for p in sorted(scope):
         if not p.startswith(RT) or p.startswith(excl):
             continue
@@ -194,6 +221,7 @@ def rule_r2(chk, F, c, cg):
         changed = True
         derived = set()
         defs = None
+        bl_defs = None
         while changed:
             changed = False
             for x in B.calls:
@@ -203,7 +231,17 @@ def rule_r2(chk, F, c, cg):
                 if not is_ptrlike(B.local_ty(d)):
                     continue
                 for a in x.args:
-                    if a[0] in ("c", "m") and (a[1][0] in gcl or a[1][0] in derived):
+                    if a[0] not in ("c", "m"):
+                        continue
+                    if a[1][0] in gcl or a[1][0] in derived:
+                        derived.add(d)
+                        changed = True
+                        break
+                    # `&addr` passed as &self: a borrow of a local that itself holds a tainted pointer value
+                    if bl_defs is None:
+                        bl_defs = cfg.simple_defs(B)
+                    bl = _base_local(B, a, bl_defs)
+                    if bl in gcl or bl in derived:
                         derived.add(d)
                         changed = True
                         break
@@ -231,6 +269,7 @@ def rule_r2(chk, F, c, cg):
         tainted = gcl | derived
         if not tainted:
             continue
+        defs = None
         live_in, live_out = B.liveness()
         for x in B.calls:
             tg = [t for (t, k) in cg.targets(x.fn)] if x.fn else []
@@ -238,6 +277,29 @@ def rule_r2(chk, F, c, cg):
             if not hit:
                 continue
             ncalls += 1
+            # (b) a tainted pointer handed INTO the call that may collect — directly or captured by a closure
+            # argument: the callee (e.g. the body of a parked_scope closure) uses it while/after a collection
+            if defs is None:
+                defs = cfg.simple_defs(B)
+            for a in x.args:
+                if a[0] not in ("c", "m"):
+                    continue
+                passed = []
+                if a[1][0] in tainted and not a[1][1]:
+                    passed.append(a[1][0])
+                o = cfg.origin(B, a, defs)
+                if o[0] == "agg" and o[1][0] == "closure":
+                    from rules.c04 import base_local
+                    for cap in o[2]:
+                        if cap[0] in ("c", "m"):
+                            # captured by move, by reborrow, or by borrowing the variable that holds the pointer
+                            bl = base_local(B, cap, defs)
+                            if cap[1][0] in tainted:
+                                passed.append(cap[1][0])
+                            elif bl in tainted:
+                                passed.append(bl)
+                for l in passed:
+                    into.append((p, B, x, l, hit[0]))
             lo = live_out[x.block]
             bad = [l for l in tainted if l in lo and l != x.dest[0]]
             # a pointer that is itself an argument moved into the callee is the callee's business
@@ -260,6 +322,17 @@ def rule_r2(chk, F, c, cg):
                     "points to the object's old location — use-after-move" %
                     (nm, B.local_ty(l), " (derived pointer)" if is_derived else "", callee,
                      " → ".join(last(q) for q in path)), x.where())
+    for (p, B, x, l, callee) in into:
+        nm = B.local_name(l) or "_%d" % l
+        key = "%s:%s-passed-into-%s" % (p, nm, last(callee))
+        if key in seen:
+            continue
+        seen.add(key)
+        r.violation(key,
+                    "`%s: %s` (a direct pointer into the managed heap) is handed to %s, which may collect or runs "
+                    "while the thread is parked: a collection started by another thread moves the object and the "
+                    "callee reads/writes the old location (heap corruption, or data delivered to a dead copy)" % (
+                        nm, B.local_ty(l), callee), x.where())
     r.observe("may-collect functions: %d; scope functions: %d" % (len(may), nfun))
 
 
